@@ -22,6 +22,13 @@ PollbackLabels(e) ==
     \cup (IF e.res = "ok" /\ e.got # e.want THEN {<<"C13.response_differs", e.transport, e.o, e.c, Len(e.got), Len(e.want)>>} ELSE {})
     \cup (IF e.res = "ok" /\ e.cur # e.cur_want THEN {<<"C13.response_current_offset", e.transport, e.cur, e.cur_want>>} ELSE {})
 
+(* C19: the encryptor is lossless for every length, leaks nothing, and reports another key / damage as an error *)
+CryptoLabels(e) ==
+    (IF e.encrypt # "ok" \/ e.decrypt # "ok" \/ ~e.equal THEN {<<"C19.not_lossless", e.n, e.encrypt, e.decrypt>>} ELSE {})
+    \cup (IF e.other_key # "error" THEN {<<"C19.other_key_not_an_error", e.n, e.other_key, e.other_key_equal>>} ELSE {})
+    \cup (IF e.in_clear THEN {<<"C19.plaintext_in_ciphertext", e.n>>} ELSE {})
+    \cup (IF e.damaged_ok # 0 \/ e.damaged_panic # 0 THEN {<<"C19.damaged_ciphertext", e.n, e.damaged_ok, e.damaged_panic>>} ELSE {})
+
 TraceInit == Init /\ l = 1 /\ bad = {}
 TraceNext ==
     /\ l <= Len(Rec) /\ l' = l + 1 /\ UNCHANGED vars
@@ -29,6 +36,7 @@ TraceNext ==
        bad' = CASE e.ev = "roundtrip" -> RoundtripLabels(e)
                 [] e.ev = "garbage" -> GarbageLabels(e)
                 [] e.ev = "pollback" -> PollbackLabels(e)
+                [] e.ev = "crypto" -> CryptoLabels(e)
                 [] OTHER -> {}
 TraceSpec == TraceInit /\ [][TraceNext]_tvars
 NoBad == bad = {} \/ PrintT("BAD " \o ToJson([line |-> l - 1, sc |-> Rec[l - 1].sc, i |-> Rec[l - 1].i,
